@@ -4,10 +4,112 @@ from elab import passcheck
 from props.C01 import sim_family
 
 
+W_QUICK = [1, 2, 3, 31, 32, 33, 63, 64, 65, 66, 127, 128, 129, 130]
+W_THOROUGH = W_QUICK + [191, 192, 193, 255, 256, 257]
+
+
+def cnet_cases(tier):
+    W = W_QUICK if tier == 'quick' else W_THOROUGH
+    cs = []
+    for w in W:
+        for op in 'w~':
+            for dw in sorted(set([1, max(1, w - 1), w])):
+                cs.append((op, None, [w], dw))
+        for op in '&|^n':
+            for dw in sorted(set([1, max(1, w - 1), w])):
+                cs.append((op, None, [w, w], dw))
+        for op in '+-':
+            for dw in sorted(set([1, max(1, w - 1), w, w + 1])):
+                cs.append((op, None, [w, w], dw))
+        for op in '<>=':
+            cs.append((op, None, [w, w], 1))
+        for dw in sorted(set([1, max(1, w - 1), w])):
+            cs.append(('x', None, [1, w, w], dw))
+        if w <= (66 if tier == 'quick' else 130):
+            for dw in sorted(set([1, w, max(1, 2 * w - 1), 2 * w])):
+                cs.append(('*', None, [w, w], dw))
+        # selects: contiguous, strided, reversed, repeated, limb-straddling
+        prms = [tuple(range(w)), tuple(range(w))[::-1], tuple(range(0, w, 3)), (w - 1,) * 3 + (0,),
+                tuple(range(max(0, w - 5), w)), tuple(range(min(w, 70)))[::2] + tuple(range(min(w, 5)))]
+        if w > 64:
+            prms.append(tuple(range(60, min(w, 70))))
+            prms.append(tuple(range(w)) + tuple(range(w)))          # 2w bits
+        for prm in prms:
+            if prm:
+                cs.append(('s', prm, [w], len(prm)))
+                if len(prm) > 1:
+                    cs.append(('s', prm, [w], len(prm) - 1))
+    # concats: 2-4 arguments from W, full and truncated
+    import itertools
+    cw = [1, 3, 31, 33, 63, 64, 65] if tier == 'quick' else [1, 2, 3, 31, 32, 33, 63, 64, 65, 127, 129]
+    for ws in itertools.product(cw, repeat=2):
+        tot = sum(ws)
+        for dw in sorted(set([tot, max(1, tot - 1)])):
+            cs.append(('c', None, list(ws), dw))
+    for ws in itertools.product([1, 31, 63, 64, 65], repeat=3):
+        tot = sum(ws)
+        for dw in sorted(set([tot, max(1, tot - 1), max(1, tot - 33)])):
+            cs.append(('c', None, list(ws), dw))
+    for ws in [(31, 31, 31, 31), (63, 1, 63, 1), (64, 64, 1, 64), (1, 1, 1, 1), (130, 3, 130)]:
+        cs.append(('c', None, list(ws), sum(ws)))
+    return cs
+
+
+def _cnet(task):
+    import traceback
+    from elab import cemit
+    op, prm, argws, dw = task
+    try:
+        r = cemit.check_net(op, prm, argws, dw, timeout_ms=90000)
+    except Exception:
+        r = dict(status='crash', why=traceback.format_exc()[-1200:])
+    r['task'] = task
+    return r
+
+
+def cnet_family(ctx):
+    cases = cnet_cases(ctx.tier)
+    if getattr(ctx, 'only', None) and 'cnet' not in ctx.only:
+        return
+    res = passcheck.pmap(_cnet, cases)
+    solver_s = 0.0
+    st_count = {}
+    for r in res:
+        op, prm, argws, dw = r['task']
+        st = r['status']
+        st_count[st] = st_count.get(st, 0) + 1
+        solver_s += r.get('solver_s', 0.0)
+        obl = 'C02.cemit[%s|args=%s|dest=%d|param=%s]' % (op, argws, dw,
+                                                          (str(prm)[:40] if prm else None))
+        if st == 'crash':
+            raise RuntimeError('%s\n%s' % (obl, r['why']))
+        if st == 'error':
+            ctx.notes.append('%s: %s' % (obl, r['why']))
+        if st in ('refuted', 'refuted-abstract'):
+            vals = r['cex'] if r.get('cex') is not None else [0] * len(argws)
+            ctx.confirm_and_report(obl, 'call',
+                                   dict(module='fam.simcheck', func='cnet_replay',
+                                        kwargs=dict(op=op, op_param=list(prm) if prm else None,
+                                                    argws=argws, dw=dw, vals=vals)),
+                                   canonical_input=dict(op=op, argws=argws, dw=dw),
+                                   function='pyrtl.compilesim.CompiledSimulation._build_*',
+                                   solver_output='sat; emitted C:\n' + '\n'.join(r.get('lines', [])[:40]),
+                                   text='emitted C for one net differs from the documented op')
+        if st == 'raised':
+            ctx.notes.append('%s: emitter raised %s' % (obl, r['why']))
+    ctx.family('C02.cemit_translation_validation', 'PB', instances=len(cases),
+               smt_queries=sum(v for k, v in st_count.items() if k in ('proved', 'refuted', 'unknown', 'refuted-abstract')),
+               nontrivial=st_count.get('proved', 0), solver_s=solver_s,
+               bound='one net per (op, limb-crossing widths, destination width / parameter); emitted C '
+                     'parsed and decided for all operand values; verdicts: %s' % st_count,
+               sample=dict(op=cases[0][0], argws=cases[0][2], dw=cases[0][3]))
+
+
 def run(ctx):
+    cnet_family(ctx)
     base = designs.family(ctx.tier, ctx.seed)
     wide = designs.wide_family(ctx.tier)
-    reps = 2 if ctx.tier == 'quick' else 5
+    reps = 3 if ctx.tier == 'quick' else 6
     for simname in ('FastSimulation', 'CompiledSimulation'):
         fn = 'pyrtl.%s' % simname
         sim_family(ctx, simname, base + wide, 'C02.%s_vs_refsem' % simname,
@@ -18,7 +120,7 @@ def run(ctx):
         for pre in (['synthesize'], ['synthesize_unmerged'], ['synthesize', 'optimize'], ['optimize']):
             sim_family(ctx, simname, sub, 'C02.%s_vs_refsem.%s' % (simname, '+'.join(pre)),
                        '%s disagrees with the reference semantics on a %s block' % (simname, '+'.join(pre)),
-                       fn, reps=1, extra=dict(pre=pre))
+                       fn, reps=2, extra=dict(pre=pre))
     ctx.assume('reference = spec/cycle.py (documented semantics); gcc and the host CPU for CompiledSimulation')
     ctx.assume('sanctioned difference: non-zero default_value is not applied to memories by CompiledSimulation (default_value=0 used)')
     return ctx.finish('other', './check C02', ['spec/cycle.py', 'gcc'],
